@@ -508,6 +508,7 @@ type BlobOpts struct {
 	RawSizeDelta int64 // added to raw_size
 	CorruptZlib  bool  // flip bytes inside the compressed stream
 	TruncateZlib bool  // drop the tail of the compressed stream (blob stays well-formed protobuf)
+	BadChecksum  bool  // damage the Adler-32 trailer of the compressed stream
 	LZMA         bool  // put the payload in lzma_data (field 4) only
 	Empty        bool  // blob with no data field at all
 	Garbage      bool  // blob bytes that are not a protobuf message
@@ -540,6 +541,11 @@ func EncodeBlob(payload []byte, o BlobOpts) []byte {
 			for i := 2; i < len(zb)-4 && i < 12; i++ {
 				zb[i] ^= 0x5a
 			}
+		}
+		if o.BadChecksum && len(zb) > 4 {
+			zb = append([]byte{}, zb...)
+			zb[len(zb)-1] ^= 0xff
+			zb[len(zb)-3] ^= 0x55
 		}
 		if o.TruncateZlib && len(zb) > 6 {
 			zb = zb[:len(zb)/2]
